@@ -1,17 +1,22 @@
 (* C09 -- constants of Gen/Consts.v (rewritten from the source of /repo by tools/genconsts on
-   every run) compared with literals.  Used by: what `add` itself creates (C09.created_by_add) and the remove branch of Model/Layers.v; the predicate spells "layerconfig" and "~removed" out itself.
+   every run) compared with literals, one lemma per constant so that the failing line names it.
+   Used by: what `add` itself creates (C09.created_by_add) and the remove branch of Model/Layers.v; the predicate spells "layerconfig" and "~removed" out itself.
    A changed constant makes this file fail to build; the check then reports
    "proof obligation no longer checks" for Properties/C09.v (C09_constants_pinned) instead of
-   letting model, predicate and code move together unnoticed. *)
+   letting model, predicate and code move together unnoticed.  The literals are repeated, with
+   their sources, in the statement of C09_constants_pinned. *)
 From LC Require Import Lib.Bytes Gen.Consts.
 Local Open Scope string_scope.
 
-Lemma c09_constants_pinned :
-  (* property C09 text "<name>~removed"; manual page, remove: "append ~removed to the layer name" *)
-  D_RemovedLayerSuffix = bs "~removed" /\
-  (* doc/layercake_directories.adoc, manual page LAYER DIRECTORY: "layerconfig" *)
-  D_LayerconfigFile = bs "layerconfig" /\
-  (* frozen from the reviewed tree (what `add` writes to build/root/.bashrc of a base layer; not documented) *)
+Lemma pin_D_RemovedLayerSuffix :
+  D_RemovedLayerSuffix = bs "~removed".
+Proof. (vm_compute; reflexivity) || fail "D_RemovedLayerSuffix of the source tree differs from the reviewed literal (C09_constants_pinned)". Qed.
+
+Lemma pin_D_LayerconfigFile :
+  D_LayerconfigFile = bs "layerconfig".
+Proof. (vm_compute; reflexivity) || fail "D_LayerconfigFile of the source tree differs from the reviewed literal (C09_constants_pinned)". Qed.
+
+Lemma pin_D_BaseLayerRootBashrc :
   D_BaseLayerRootBashrc = bs "#!/bin/bash
 
 source /etc/profile
@@ -22,4 +27,6 @@ fi
 export PS1=""($msg) \[\033]0;\u@\h:\w\007\]\[\033[01;31m\]\h\[\033[01;34m\] \w \$\[\033[00m\] ""
 
 ".
-Proof. repeat split; vm_compute; reflexivity. Qed.
+Proof. (vm_compute; reflexivity) || fail "D_BaseLayerRootBashrc of the source tree differs from the reviewed literal (C09_constants_pinned)". Qed.
+
+Definition c09_constants_pinned := conj pin_D_RemovedLayerSuffix (conj pin_D_LayerconfigFile pin_D_BaseLayerRootBashrc).
